@@ -1,128 +1,12 @@
-import OpcuaVerif.Model.C12
+import OpcuaVerif.Model.SrvConn
 
 /-
-C15 — model of one server connection (`lib/src/server/comms/tcp_transport.rs`,
-`secure_channel_service.rs`): the reading loop of `spawn_reading_loop_task` (`wait_for_hello`, then
-only chunks; the first `Err` ends the loop), `process_hello`, `process_chunk` /
-`process_final_chunk` dispatch for single-chunk OPN / MSG / CLO frames with valid contents on a
-policy-None channel, `SecureChannelService::open_secure_channel` (Issue / Renew, `issued`,
-channel-id and token-id counters) and `close_secure_channel`.
-
-`guarded = false` is the pinned source (a MSG is dispatched to the service layer whether or not a
-channel was issued), `guarded = true` the tree after the `fix:` commit (MSG before an Issue →
-`BadTcpSecureChannelUnknown`, connection closed).
+C15 — the model of one server connection lives in `Model/SrvConn.lean` (shared with C10 and C12):
+reading loop, `process_hello`, `process_chunk` / `process_final_chunk` for every chunk type
+(MSG / OPN / CLO) and flag (C / F / A), `open_secure_channel` Issue / Renew, `close_secure_channel`,
+service dispatch.  `guarded = false` there is the pinned source (no "MSG needs an issued channel"
+guard).
 -/
 namespace OpcuaVerif.C15
-open OpcuaVerif.C11 OpcuaVerif.C12
-
-inductive Phase where
-  | waitingHello | processing | closed
-deriving Repr, DecidableEq
-
-structure Conn where
-  phase : Phase
-  issued : Bool              -- SecureChannelState.issued
-  chanId : Nat               -- secure_channel.secure_channel_id()
-  lastChanId : Nat           -- SecureChannelState.last_secure_channel_id
-  tokenId : Nat              -- last_token_id
-  lastSeq : Nat              -- last_received_sequence_number
-deriving Repr, DecidableEq
-
-def Conn.init : Conn :=
-  { phase := .waitingHello, issued := false, chanId := 0, lastChanId := 0, tokenId := 0, lastSeq := 0 }
-
-/-- contents of a HEL frame, as far as `process_hello` distinguishes them -/
-inductive HelKind where
-  | valid | badUrl | smallBuffers | protocol1
-deriving Repr, DecidableEq
-
-inductive Service where
-  | getEndpoints | createSession
-deriving Repr, DecidableEq
-
-/-- one frame delivered by the codec -/
-inductive Frame where
-  | hel (k : HelKind)
-  | ack                                  -- an ACK or ERR frame sent *to* the server
-  | opn (renew : Bool) (c : CI)
-  | msg (s : Service) (c : CI)
-  | clo (c : CI)
-deriving Repr, DecidableEq
-
-/-- what the connection queues for the writer / how it ends -/
-inductive Out where
-  | ack
-  | opnResponse (chan token req : Nat)
-  | service (s : Service) (req : Nat)    -- a response produced by the service layer
-  | closeErr (code : String)             -- Err(code): the loop ends, nothing is sent
-  | ignored                              -- the connection is already closed: the frame is never read
-deriving Repr, DecidableEq
-
-def closeWith (c : Conn) (code : String) : Conn × Out := ({ c with phase := .closed }, .closeErr code)
-
-/-- `process_hello` -/
-def processHello (c : Conn) : HelKind → Conn × Out
-  | .valid => ({ c with phase := .processing }, .ack)
-  | .badUrl => closeWith c "BadTcpEndpointUrlInvalid"
-  | .smallBuffers => closeWith c "BadCommunicationError"
-  | .protocol1 => closeWith c "BadProtocolVersionUnsupported"
-
-/-- `turn_received_chunks_into_message` for a single-chunk message: sequence / channel id check -/
-def seqCheck (c : Conn) (ci : CI) : Conn ⊕ String :=
-  match recv c.lastSeq c.chanId [some ci] with
-  | .ok l => .inl { c with lastSeq := l }
-  | .err e => .inr e
-  | .panic => .inr "panic"     -- unreachable (`recv_total`)
-
-/-- `process_chunk` → `process_final_chunk` for a final, single chunk -/
-def processChunk (guarded : Bool) (c : Conn) : Frame → Conn × Out
-  | .opn renew ci =>
-    match seqCheck c ci with
-    | .inr e => closeWith c e
-    | .inl c1 =>
-      if renew then
-        if ¬ c1.issued then closeWith c1 "BadUnexpectedError"
-        else
-          let c2 := { c1 with tokenId := c1.tokenId + 1 }
-          (c2, .opnResponse c2.chanId c2.tokenId ci.req)
-      else
-        let c2 := { c1 with issued := true, lastChanId := c1.lastChanId + 1, chanId := c1.lastChanId + 1,
-                            tokenId := c1.tokenId + 1 }
-        (c2, .opnResponse c2.chanId c2.tokenId ci.req)
-  | .msg s ci =>
-    -- the guard sits at the top of `process_final_chunk`, before validation and decoding
-    if guarded ∧ ¬ c.issued then closeWith c "BadTcpSecureChannelUnknown"
-    else
-      match seqCheck c ci with
-      | .inr e => closeWith c e
-      | .inl c1 => (c1, .service s ci.req)
-  | .clo ci =>
-    match seqCheck c ci with
-    | .inr e => closeWith c e
-    | .inl c1 => closeWith c1 "BadConnectionClosed"
-  | _ => closeWith c "BadCommunicationError"   -- not a chunk (handled by the loop, see `stepWith`)
-
-/-- one iteration of the reading loop -/
-def stepWith (guarded : Bool) (c : Conn) (f : Frame) : Conn × Out :=
-  match c.phase with
-  | .closed => (c, .ignored)
-  | .waitingHello =>
-    match f with
-    | .hel k => processHello c k
-    | _ => closeWith c "BadCommunicationError"      -- "Expected a hello message"
-  | .processing =>
-    match f with
-    | .hel _ => closeWith c "BadCommunicationError"  -- "Received unexpected message"
-    | .ack => closeWith c "BadCommunicationError"
-    | f => processChunk guarded c f
-
-/-- the source as it is now (after the fix) -/
-def step := stepWith true
-
-def runWith (guarded : Bool) : Conn → List Frame → List Out
-  | _, [] => []
-  | c, f :: fs => (stepWith guarded c f).2 :: runWith guarded (stepWith guarded c f).1 fs
-
-def run := runWith true
-
+export OpcuaVerif.SrvConn (Conn Frame Out step run)
 end OpcuaVerif.C15
